@@ -23,6 +23,9 @@ type uField struct {
 	Foreign  *[2]string // (package, entity) of a foreign key
 	Optional bool
 	Obj      string // object:<Name> reference to a schema of the package ("" = not a reference)
+	// SayFalse prints the boolean attributes that are off explicitly (`primary = false`,
+	// `required = false`, `optional = false`): same declaration, different text
+	SayFalse bool
 }
 
 type eSchema struct {
@@ -33,6 +36,21 @@ type eSchema struct {
 type eKey struct {
 	uField
 	Shard bool
+}
+
+// text-only variation: `shardKey = false` spelled out
+func (k eKey) extraAttrs() []string {
+	var out []string
+	if k.Key && !k.Primary && k.Foreign == nil && k.SayFalse {
+		// `primary` is an attribute of entity keys only
+		out = append(out, "primary = false")
+	}
+	if k.Shard {
+		out = append(out, "shardKey = true")
+	} else if k.SayFalse {
+		out = append(out, "shardKey = false")
+	}
+	return out
 }
 
 type eEvent struct {
@@ -53,16 +71,21 @@ type eCommand struct {
 	Name    *string
 	Base    *string
 	Methods []eMethod
-}
-
-type eSummary struct {
-	Name   string
-	Fields []uField
+	// Audience, when non-nil, gives the command its own options block (audience / default auth).
+	// acceptCommands replaces the declared options by the state_command annotation.
+	Audience    []string
+	OptionsForm int // 0 block, 1 dotted attributes
 }
 
 type eQuery struct {
 	EventsInGet   bool
 	DefaultStatus []string
+	SayFalse      bool // `eventsInGet = false` spelled out
+}
+
+type eSummary struct {
+	Name   string
+	Fields []uField
 }
 
 type entityDecl struct {
@@ -167,9 +190,13 @@ func printField(sb *strings.Builder, indent, word string, u uField, extra ...str
 	var attrs []string
 	if u.Required && !u.Bang {
 		attrs = append(attrs, "required = true")
+	} else if !u.Required && u.SayFalse {
+		attrs = append(attrs, "required = false")
 	}
 	if u.Optional && (!u.Bang || u.Required) {
 		attrs = append(attrs, "optional = true")
+	} else if !u.Optional && u.SayFalse {
+		attrs = append(attrs, "optional = false")
 	}
 	if u.Key && u.Foreign != nil {
 		attrs = append(attrs, fmt.Sprintf("foreign = %q", u.Foreign[0]+"."+u.Foreign[1]))
@@ -222,11 +249,7 @@ func (d *entityDecl) block() string {
 		fmt.Fprintf(&sb, "\tbaseUrlPath = %q\n", d.BaseURL)
 	}
 	for _, k := range d.Keys {
-		if k.Shard {
-			printField(&sb, "\t", "key", k.uField, "shardKey = true")
-		} else {
-			printField(&sb, "\t", "key", k.uField)
-		}
+		printField(&sb, "\t", "key", k.uField, k.extraAttrs()...)
 	}
 	for _, f := range d.Data {
 		printField(&sb, "\t", "data", f)
@@ -248,6 +271,17 @@ func (d *entityDecl) block() string {
 		}
 		if c.Base != nil {
 			fmt.Fprintf(&sb, "\t\tbasePath = %q\n", *c.Base)
+		}
+		if c.Audience != nil {
+			q := make([]string, len(c.Audience))
+			for i, a := range c.Audience {
+				q[i] = fmt.Sprintf("%q", a)
+			}
+			if c.OptionsForm == 0 {
+				sb.WriteString("\t\toptions {\n\t\t\taudience = [" + strings.Join(q, ", ") + "]\n\t\t}\n")
+			} else {
+				sb.WriteString("\t\toptions.audience = [" + strings.Join(q, ", ") + "]\n\t\toptions.defaultAuth.none {\n\t\t}\n")
+			}
 		}
 		for _, m := range c.Methods {
 			sb.WriteString("\t\tmethod " + m.Name + " {\n")
@@ -291,6 +325,8 @@ func (d *entityDecl) block() string {
 		sb.WriteString("\tquery {\n")
 		if d.Query.EventsInGet {
 			sb.WriteString("\t\teventsInGet = true\n")
+		} else if d.Query.SayFalse {
+			sb.WriteString("\t\teventsInGet = false\n")
 		}
 		if len(d.Query.DefaultStatus) > 0 {
 			q := make([]string, len(d.Query.DefaultStatus))
